@@ -91,12 +91,22 @@ class Run:
             if c.gen is not None:
                 for ob in self.sink.obls[n0:]:
                     if ob.replay is None and ob.kind in ("post", "preserve", "establish", "frame", "bounds", "call-pre", "step"):
-                        ob.replay = (lambda c=c, cfs=cfs: (lambda model: self._fuzz(cfs, c)))()
+                        ob.replay = (lambda c=c, cfs=cfs, ob=ob: (lambda model: self._fuzz_for(cfs, c, ob)))()
             self.functions.append({"file": c.file, "function": c.func + (c.tag or ""), "line": cf.fn_line(c.func),
                                    "sha1": cf.fn_sha(c.func), "obligations": len(self.sink.obls) - n0})
             if len(self.sink.obls) == n0:
                 raise CheckerError("zero obligations for %s" % c.func)
         return ex
+
+    def _fuzz_for(self, cfs, c, ob):
+        """replay result for one obligation: a failing ensures clause counts for the post obligation of that
+        clause; for loop/bounds obligations any failing clause of the function counts"""
+        r = dict(self._fuzz(cfs, c))
+        if r.get("reproduced") and ob.kind == "post" and c.replay_ensures is None:
+            if ob.meta.get("label") not in (r.get("violated_clauses") or []):
+                r["reproduced"] = False
+                r["reason"] = "the real code violates other clauses (%s), not this one" % r.get("violated_clauses")
+        return r
 
     def _fuzz(self, cfs, c):
         from . import cfuzz
